@@ -29,6 +29,7 @@ def h_engine_summary(o):
         "hash_rekey": s["hash_rekey"],
         "clock_jump(LD_PRELOAD clock seam: simulated CLOCK_MONOTONIC/REALTIME leap forward 1 ms .. 30 days)": s.get("clock_jumps", 0),
         "calls_from_thread_local_destructor_at_thread_exit": s.get("teardown_ops", 0),
+        "library_internal_threads_taken_under_scheduler_control(pthread_create seam)": s.get("library_threads", 0),
         "instance_handoff": s["instance_handoff"],
         "long_haul_threshold_crossed": s["long_haul_threshold_crossed"],
         "caught_panic_same_cold_and_warm": s["caught_panic_same"],
